@@ -17,3 +17,31 @@ set is empty. -/
 def requiredISA (set : List String) : List String := sortStrs set
 
 end Avo.ISA
+
+/-! Acceptor of the repeated-run measurement (C17): the digests of all runs of one program. -/
+namespace Avo.Det
+
+/-- verdict on the digests of the repeated generations of one program:
+`none` = accepted; otherwise the failure class. -/
+def judge : List String → Option String
+  | [] => none
+  | d :: rest =>
+    if (d :: rest).any (· == "panic") then some "bad-panic"
+    else if rest.all (· == d) then none
+    else some "bad-nondeterministic"
+
+def acceptDet (ds : List String) : Bool := (judge ds).isNone
+
+/-- Which of the three parts `asm.stubs.alloc` of a digest differ somewhere (diagnostic only). -/
+def differingParts (ds : List String) : List String :=
+  match ds with
+  | [] => []
+  | d :: rest =>
+    let p := d.splitOn "."
+    if p.length != 3 then (if rest.all (· == d) then [] else ["status"]) else
+    let names := ["asm", "stubs", "alloc"]
+    (List.range 3).filterMap (fun i =>
+      if rest.all (fun x => let q := x.splitOn "."; q.length == 3 && q.getD i "" == p.getD i "") then none
+      else some (names.getD i ""))
+
+end Avo.Det
